@@ -720,6 +720,18 @@ def run(ctx):
 
     # ---- report: smallest reproducer per signature -----------------------------------------------------
     aux = {f: open(os.path.join(SEEDS, "aux", f)).read() for f in sorted(os.listdir(os.path.join(SEEDS, "aux")))}
+    # The ptrace observer occasionally misses the stack of a dying child (empty trace): such a crash is real, but its
+    # signature must be derived deterministically, so those cases are re-run alone until a stack is captured.
+    retraced = 0
+    for k, a in enumerate(anomalies):
+        if a["cls"] == "signal" and not sym.frames(a["trace"]):
+            for attempt in range(4):
+                r = run_batch(runner, ctx.chibicc, os.path.join(ctx.work, "retrace%d" % k), [("c", a["data"], a["opts"])], "-")[0]
+                if sym.frames(r[5]):
+                    a["trace"] = r[5]
+                    retraced += 1
+                    break
+    ctx.cover(crash_stacks_recaptured=retraced)
     bysig = {}
     for a in anomalies:
         sig = signature(sym, a)
